@@ -28,7 +28,8 @@ const c02Rule = "rapid-generated protobuf models of the json profile: arbitrary 
 	"identifiers from every lexer shape, a fraction with module/file attribution; converted with TransformJSONProtoToDSL and, after protojson.Marshal, TransformJSONStringToDSL. " +
 	"Oracle: an independent expressibility predicate decides success (iff), the error must name a relation that violates it, the produced DSL must parse to the " +
 	"independently normalised input, utils.IsRelationAssignable must agree with the presence of '[' in the printed definition. Non-trivial = some relation is inexpressible, or " +
-	"has a direct assignment that is not already first; distinct by model content."
+	"has a direct assignment that is not already first; distinct by model content. Bounded exhaustive part: every rewrite tree over the leaves {this, computed, tuple-to-userset} with " +
+	"operator nesting depth <= 2 (unions/intersections of 1-2 operands, 1-3 at the innermost level, differences) as the definition of one relation."
 
 var c02ReErr = regexp.MustCompile(`^the '(.*)' relation definition under the '(.*)' type is not supported by the OpenFGA DSL syntax yet$`)
 
@@ -160,6 +161,37 @@ func c02Draw(rt *rapid.T) *gen.Model {
 	return m
 }
 
+// c02Trees enumerates every rewrite tree over the leaves {this, computed a, b from p} with operator nesting depth
+// <= 2, unions/intersections of 1 or 2 operands (1..3 at the innermost level) and differences: 24 000-odd trees.
+func c02Trees() []*gen.Rewrite {
+	leaves := []*gen.Rewrite{{Kind: gen.This}, {Kind: gen.Computed, Rel: "a"}, {Kind: gen.TTU, Rel: "b", Tupleset: "p"}}
+	level := func(kids []*gen.Rewrite, maxArity int) []*gen.Rewrite {
+		var out []*gen.Rewrite
+		for _, k := range []string{gen.Union, gen.Intersection} {
+			for _, x := range kids {
+				out = append(out, &gen.Rewrite{Kind: k, Kids: []*gen.Rewrite{x}})
+				for _, y := range kids {
+					out = append(out, &gen.Rewrite{Kind: k, Kids: []*gen.Rewrite{x, y}})
+					if maxArity >= 3 {
+						for _, z := range kids {
+							out = append(out, &gen.Rewrite{Kind: k, Kids: []*gen.Rewrite{x, y, z}})
+						}
+					}
+				}
+			}
+		}
+		for _, x := range kids {
+			for _, y := range kids {
+				out = append(out, &gen.Rewrite{Kind: gen.Difference, Kids: []*gen.Rewrite{x, y}})
+			}
+		}
+		return out
+	}
+	d1 := level(leaves, 3)
+	all := append(append([]*gen.Rewrite{}, leaves...), d1...)
+	return append(all, level(all, 2)...)
+}
+
 func TestC02(t *testing.T) {
 	rec := ev.New("C02", c02Rule)
 	defer func() {
@@ -173,6 +205,29 @@ func TestC02(t *testing.T) {
 	rec.Require("verdict:expressible", 0.30)
 	rec.Require("shape:this-not-first", 0.05)
 	rec.Require("shape:single-child-operator", 0.05)
+	// bounded exhaustive part: every tree of c02Trees as the definition of one relation (shared over the shards)
+	{
+		trees := c02Trees()
+		var n, inexpr int64
+		for i := ev.Shard(); i < len(trees); i += ev.Shards() {
+			m := &gen.Model{Schema: "1.1", Types: []gen.TypeDef{{Name: "user"}, {Name: "doc", Rels: []gen.Relation{
+				{Name: "p", Rw: &gen.Rewrite{Kind: gen.This}, Restr: []gen.Restriction{{Type: "doc"}}},
+				{Name: "x", Rw: trees[i].Clone(), Restr: []gen.Restriction{{Type: "user"}, {Type: "user", Wild: true, Cond: "c"}, {Type: "doc", Rel: "p"}}},
+			}}}, Conds: []gen.Condition{{Name: "c", Params: []gen.Param{{Name: "v", Type: "int"}}, Expr: "v > 1"}}}
+			n++
+			if !ref.Expressible(trees[i]) {
+				inexpr++
+			}
+			in := c02Input{Model: m}
+			if msg := c02Check(in); msg != "" {
+				in.Text = m.String()
+				rec.Violation(in, msg)
+				t.Fatalf("enumerated tree #%d %s: %s", i, trees[i], msg)
+			}
+		}
+		rec.Bulk(n, n, map[string]int64{"enum:trees": n, "enum:inexpressible": inexpr})
+		rec.Note("enumerated %d of %d rewrite trees (depth <= 2 over 3 leaves; %d of them inexpressible) in this process", n, len(trees), inexpr)
+	}
 	rapid.Check(t, func(rt *rapid.T) {
 		m := c02Draw(rt)
 		in := c02Input{Model: m}
